@@ -277,6 +277,9 @@ def _counter_step(facts, cb, du):
                 e = expr(du, s["rv"]["x"]) if s["rv"]["k"] == "use" else None
                 if e and e[0] == "path" and e[1][0] == "bin" and e[1][1] in ("AddWithOverflow", "Add") and e[1][3][0] == "const":
                     post = e[1][3][1]
+                elif e and e[0] == "call" and e[1].split("::")[-1] in ("saturating_add", "wrapping_add") and len(e[2]) == 2 and e[2][1][0] == "const":
+                    # n -> min(n + k, MAX): exact below the type's maximum
+                    post = e[2][1][1]
                 else:
                     return None
     if am:
